@@ -4,8 +4,17 @@
 
    WHAT IS MODELLED
 
-   A record is  [fmt, testing, name, sev, caller, width, minw, msg, attrs, lc]  where
+   A record is  [fmt, testing, name, sev, caller, cfile, width, minw, msg, attrs, lc]  where
      msg    is a sequence of character CLASSES (Classes below; "LF" separates lines),
+     caller the caller member / field is switched on (flag Lcaller); then
+     cfile  is the class of the special character inside the FILE NAME of the call site the
+              record is attributed to ("plain": an ordinary POSIX path).  The file name comes out
+              of the program's symbol table - generated code and `//line` directives put Windows
+              paths (C:\work\app\main.go), quotes, blanks, control and non-ASCII characters there;
+              SiteClasses is what the Go toolchain accepts.  caller.file is a STRING MEMBER LIKE ANY
+              OTHER: the escape-class table of Part A applies to it (CallerRoundTrip), it must
+              decode to exactly the file the runtime reports for that site after the library's
+              documented path hardening (slog.Safety) - clause "caller-file" of Part D,
      lc     the level colour configuration in force for the record's severity:
               [set, fg, bg]  set = slog.SetLevelColors(sev, fg, bg) was called (FALSE: the
               built-in table / the colours of the registration), fg in {"none", "fg"} (NoColor /
@@ -33,7 +42,11 @@
            Mode(fmt, c, form) names how an observed emission fails ("raw", "go-escape", ...).
            Invariants  Legal, OneLine, RoundTrip, NoForgery, NoRawControl  range over the
            whole class table.  `MechIsJson` (expected to FAIL) shows that the Go-syntax
-           escaper cannot satisfy the JSON grammar and for which classes.
+           escaper cannot satisfy the JSON grammar and for which classes.  CallerRoundTrip: the
+           same for the caller member over SiteClasses; `SymbolCopyIsLegal` (expected to FAIL)
+           is the discipline "symbol-table strings are plain paths and identifiers - copy them
+           between the quotes unless they carry a quote": SymbolCopyBad lists the (format, class)
+           pairs it breaks.
    Part B  attribute trees.  Merge = for every key its last occurrence, ascending key order,
            recursively inside groups (C07 owns the rule, the encoders must exhibit it);
            Members(rec) is the object JSON must decode to, Pairs(rec) the dotted key=value
@@ -42,7 +55,9 @@
            every tree up to MaxNodes nodes; invariants MergeSorted, MergeLastWins,
            MergeIdempotent, PairsAscending, PairsComplete, MembersCount are evaluated on every
            tree; the model-checking module adds `Export`, which prints each tree once so that
-           the harness replays exactly TLC's set.  TreeFeatures names the shapes of a tree
+           the harness replays exactly TLC's set.  EmptyGroupReserved names the members with a
+           reserved key whose parent group has the EMPTY key (JSON only): the key path in front
+           of them is as empty as at record level.  TreeFeatures names the shapes of a tree
            (group, after-group, empty-group, nested-group, duplicate-key, empty-key).
    Part C  colour hygiene.  A terminal-state machine (fg, bg, attributes; SGR 0 resets)
            is driven by a stream of integers: an SGR parameter (>= 0) or Brk (a line
@@ -178,6 +193,19 @@ NoRawControl == \A c \in Control : \A f \in Esc("color", c) : ~IsRaw(f[1])
 MechIsJson   == \A c \in Classes : \A f \in EscMech(c) : JsonStr(f)
 MechJsonBad  == {c \in Classes : \E f \in EscMech(c) : ~JsonStr(f)}
 
+\* The caller member.  File names of call sites: every class the Go toolchain accepts in a source
+\* position (`//line file:line`, `/*line file:line*/` - the block form even carries a line break).
+\* It refuses invalid UTF-8, NUL and U+FEFF: no class but "invalid" disappears (NUL is one
+\* representative of C0, U+FEFF one of npbmp).
+SiteClasses == Classes \ {"invalid"}
+QuotedFormats == {"json", "logfmt"}            \* caller.file is a quoted string there
+CallerRoundTrip == \A fm \in QuotedFormats, c \in SiteClasses :
+                       ValidUTF8(c) /\ \A f \in Esc(fm, c) : StrLegal(fm, f) /\ Decodes(f, c)
+\* witness (must be violated): "symbol-table strings are plain - copy unless there is a quote in it"
+SymbolCopy(c) == IF c = "quote" THEN EscMech(c) ELSE {<<RawTok(c)>>}
+SymbolCopyIsLegal == \A fm \in QuotedFormats, c \in SiteClasses : \A f \in SymbolCopy(c) : StrLegal(fm, f)
+SymbolCopyBad == {<<fm, c>> \in QuotedFormats \X SiteClasses : \E f \in SymbolCopy(c) : ~StrLegal(fm, f)}
+
 \* how an observed emission of one class is called in a finding
 Mode(fmt, c, f) ==
     IF StrLegal(fmt, f) THEN "ok"
@@ -248,6 +276,16 @@ RECURSIVE MemberReserved(_, _)                                  \* {<<name, kind
 MemberReserved(s, d) ==
     UNION { (IF d > 0 /\ s[i].k \in ReservedIds THEN {<<ResName(s[i].k), s[i].kind>>} ELSE {})
             \cup (IF s[i].kind = "group" THEN MemberReserved(s[i].sub, d + 1) ELSE {}) : i \in DOMAIN s }
+\* {<<name, kind>>} of members with a reserved key whose PARENT group has the empty key (JSON only: the
+\* empty key is no legal logfmt key).  An implementation that tells "record level" from "inside a group" by
+\* the key path written so far cannot tell such a member from a top-level attribute.
+RECURSIVE EmptyGroupReserved(_)
+EmptyGroupReserved(s) ==
+    UNION { (IF s[i].kind = "group"
+             THEN (IF s[i].k = 0 THEN {<<ResName(s[i].sub[j].k), s[i].sub[j].kind>> :
+                                          j \in {x \in DOMAIN s[i].sub : s[i].sub[x].k \in ReservedIds}} ELSE {})
+                  \cup EmptyGroupReserved(s[i].sub)
+             ELSE {}) : i \in DOMAIN s }
 TreeFeatures(s) ==
     (IF AnyLevel(s, AfterGroup) THEN {"after-group"} ELSE IF HasGroup(s) THEN {"group"} ELSE {})
     \cup (IF AnyLevel(s, HasEmptyGroup) THEN {"empty-group"} ELSE {})
@@ -450,6 +488,12 @@ PairsMatchSeq(exp, got, accept(_)) ==          \* ... and in the stated (ascendi
                              /\ (exp[i].vc = "invalid" \/ Won(exp[i], got[i]) \/ TopTimeWaived(exp[i]))
 
 HasKind(s, kind) == AnyLevel(s, LAMBDA q : \E i \in DOMAIN q : q[i].kind = kind)
+\* class of the call site's file name (records of older recordings carry none: an ordinary path)
+CFile(rec) == IF "cfile" \in DOMAIN rec THEN rec.cfile ELSE "plain"
+\* o.callerok: line and function are those of the call site;  o.cfilert: the file member / field
+\* decodes to exactly slog.Safety(<file the runtime reports for the site>)
+CallerDiag(rec, o) == (IF rec.caller => o.callerok THEN {} ELSE {"caller"})
+                      \cup (IF rec.caller => o.cfilert THEN {} ELSE {"caller-file"})
 MsgAllValid(rec) == \A i \in DOMAIN rec.msg : ValidUTF8(rec.msg[i])
 NameAllValid(rec) == \A i \in DOMAIN rec.name.cls : ValidUTF8(rec.name.cls[i])
 
@@ -469,7 +513,7 @@ JsonDiag(rec, o) ==
           \cup (IF MsgAllValid(rec) => o.msgrt THEN {} ELSE {"msg-changed"})
           \cup (IF rec.name.has /\ NameAllValid(rec) => o.namert THEN {} ELSE {"logger-changed"})
           \cup (IF o.lvl THEN {} ELSE {"level-name"})
-          \cup (IF rec.caller => o.callerok THEN {} ELSE {"caller"})
+          \cup CallerDiag(rec, o)
           \cup (IF MembersMatch(Members(rec), o.members) THEN {} ELSE {"members"}))
 
 \* C05 claims the single line only for production processes; under go test an error value may
@@ -486,13 +530,18 @@ LogfmtDiag(rec, o) ==
           \cup (IF MsgAllValid(rec) => o.msgrt THEN {} ELSE {"msg-changed"})
           \cup (IF rec.name.has /\ NameAllValid(rec) => o.namert THEN {} ELSE {"logger-changed"})
           \cup (IF o.lvl THEN {} ELSE {"level-name"})
-          \cup (IF rec.caller => o.callerok THEN {} ELSE {"caller"})
+          \cup CallerDiag(rec, o)
           \cup (IF PairsMatchSet(Pairs(rec), o.pairs, AcceptLogfmt) THEN {} ELSE {"pairs"}))
 
 \* C06.  Layout is claimed for messages without markup and without control characters other
-\* than LF; hygiene for every message without escape bytes.
+\* than LF; hygiene for every message without escape bytes.  The caller is part of the layout
+\* ("..., the attributes, the caller, and then the remaining message lines"); C06 fixes no quoting
+\* for it and speaks of raw control bytes of ATTRIBUTE VALUES only: a call site whose file name
+\* carries a control character (it is the program's own source position, not an input of the
+\* record) is judged for colour hygiene alone.
 LayoutClasses == {"plain", "space", "quote", "bslash", "nonascii", "astral", "equals", "LF"}
-InLayoutDomain(rec) == \A i \in DOMAIN rec.msg : rec.msg[i] \in LayoutClasses
+CallerCtlFree(rec) == rec.caller => CFile(rec) \notin Control
+InLayoutDomain(rec) == (\A i \in DOMAIN rec.msg : rec.msg[i] \in LayoutClasses) /\ CallerCtlFree(rec)
 MsgCtlFree(rec) == \A i \in DOMAIN rec.msg : rec.msg[i] \notin Control \ {"LF"}
 TrailingLF(msg) == LET RECURSIVE T(_)
                        T(m) == IF m # <<>> /\ m[Len(m)] = "LF" THEN 1 + T(SubSeq(m, 1, Len(m) - 1)) ELSE 0
@@ -512,7 +561,7 @@ ColorDiag(rec, o) ==
     \* hygiene: all breaks of the record proper (everything, outside the go-test error dump)
     (IF ResetAtBreak(o.stream, IF DumpAllowed(rec) THEN OwnLines(rec) ELSE Len(o.stream))
      THEN {} ELSE {"colour-at-break"})
-    \cup (IF MsgCtlFree(rec) /\ ~DumpAllowed(rec) => o.rawctl = 0 THEN {} ELSE {"raw-control"})
+    \cup (IF MsgCtlFree(rec) /\ CallerCtlFree(rec) /\ ~DumpAllowed(rec) => o.rawctl = 0 THEN {} ELSE {"raw-control"})
     \cup (IF ~InLayoutDomain(rec) THEN {}
           ELSE (IF o.parsed THEN {} ELSE {"layout-unparsable"})
           \cup (IF ~o.parsed THEN {}
@@ -525,6 +574,7 @@ ColorDiag(rec, o) ==
                       THEN {} ELSE {"padding"})
                 \cup (IF PairsMatchSeq(Pairs(rec), o.pairs, AcceptColor) THEN {} ELSE {"pairs"})
                 \cup (IF rec.caller = o.hascaller /\ (rec.caller => o.callerok) THEN {} ELSE {"caller"})
+                \cup (IF rec.caller /\ o.hascaller => o.cfilert THEN {} ELSE {"caller-file"})
                 \cup (IF DumpAllowed(rec) THEN {}
                       ELSE (IF /\ o.nrest >= OwnLines(rec) - 1
                                /\ o.nrest - (OwnLines(rec) - 1) <= TrailingLF(rec.msg)
@@ -542,6 +592,7 @@ KeysLegal(fmt, s) == \A i \in DOMAIN s :
     /\ (s[i].kind = "group" => KeysLegal(fmt, s[i].sub))
 InDomain(rec) ==
     /\ KeysLegal(rec.fmt, rec.attrs)
+    /\ rec.caller => CFile(rec) \in SiteClasses
     /\ rec.fmt # "color" => ~HasTopReserved(rec.attrs)       \* "all keys other than the reserved field names"
     /\ rec.fmt # "color" => ~HasKind(rec.attrs, "textm")      \* user marshallers are outside C04/C05
     /\ rec.fmt = "color" => "ESC" \notin {rec.msg[i] : i \in DOMAIN rec.msg}
